@@ -1,7 +1,10 @@
 """stubtest: an InitVar field with a default exists as a class attribute at run time but is removed from the stub's class by the dataclass plugin, so stubtest reports it missing from the stub.
 
 Exit status 1 = defect present, 0 = absent, 2 = inconclusive (preconditions of the input failed).
-Mechanism keys: stubtest:parse-only:dataclass.field:is not present in stub, stubtest:semantic:dataclass.field:is not present in stub"""
+Mechanism keys:
+  stubtest:parse-only:dataclass.field:is not present in stub
+  stubtest:semantic:dataclass.field:is not present in stub
+"""
 import os
 import sys
 
